@@ -452,4 +452,7 @@ def run(prog, tier):
         res.viol('value-only', 'ezc3d::c3d', 'include/ezc3d.h:%d' % c3d['line'], 'c3d became copyable while holding section handles', function='', expr='c3d-copy')
     else:
         res.ok('value-only', 'ezc3d::c3d is not copyable', 'include/ezc3d.h:%d' % c3d['line'], function='', expr='c3d-copy')
+    # "adding a point or a channel adds it exactly once to every frame": the column adders (C06's column rules)
+    import p_c06
+    p_c06.column_rules(prog, res, rule='once-per-frame')
     return res
